@@ -87,3 +87,8 @@ claimed["C15"] = (
  "exhaustive fault-position enumeration (every registration x invocation x fault kind) and exhaustive API-argument enumeration on the real container",
  "6 dependency shapes x 5 lifetime patterns x every registration x invocation 1..3 x 6 fault kinds (error, nil, panic with string/error/struct/nil), each followed by retries, a second scope and Close: no panic escapes, the constructor's error is reachable by errors.As, panics surface as ConstructorPanicError carrying the value, retries succeed, lifetime / wiring / disposal oracles hold. ~1,000 API calls with nil / typed-nil / zero / unregistered / mismatched / invalid arguments never panic; Must* panic iff the plain call errs; 30 error-class routes through Build / resolution / registration / module wrappers are recognisable with errors.Is/As.",
  "one fault per execution; hashable keys only", "DESIGN.md 6/C15")
+claimed["C16"] = (
+ "exhaustive enumeration of (integration x options x exit path) and of two-request sequences on the real adapters and frameworks, plus preemption-bounded schedule exploration of concurrent requests",
+ "For net/http, chi, gin, echo and fiber: every combination of error-handler / Handle-handler / recovery options, 0-2 configured middlewares and 9 exit paths (incl. middleware error at every position, handler panic, failing scope creation, closed provider, unregistered controller, missing middleware), every ordered pair of exit paths on one router, and every schedule (bound 2/3) of two concurrent requests (http, chi, gin, echo): scopes created per request, which handlers ran, middleware order, scope identity seen by all, controller resolved from it, exactly-once closing of everything created for the request on every exit path, panic swallowing iff recovery is enabled.",
+ "framework internals are not under scheduler control (they run atomically between godi's synchronisation points); fiber only sequentially and behind its own recover middleware",
+ "DESIGN.md 6/C16")
